@@ -1,8 +1,458 @@
 package main
 
-import "bufio"
-
 // owned by the frame area (C05, C16)
+//
+//	frame.parse max=<n|d> <hex>   read one frame with ReadFrameFromWithSize (max=d: ReadFrameFrom)
+//	    → ok <frame> consumed=<n> pool=<counts> anom=<list> :: xnet=<x/net's reading of the same octets>
+//	frame.reuse max=<n|d> <hex>   read, then acquire two bodies of that type: same object twice?
+//	frame.spec max=<n> <hex>      x/net's reading only (the Lean side answers with the RFC grammar)
+//	frame.write <TYPE> s= fl= pad= k=v…   build through the setters, WriteTo → ok <hex> :: xnet=<reading>
 
-func runFrame(f []string) string                      { return "bad-op" }
-func genFrame(p *prng, thorough bool, w *bufio.Writer) {}
+import (
+	"bufio"
+	"bytes"
+	"errors"
+	"fmt"
+	"io"
+	"strconv"
+	"strings"
+
+	http2 "github.com/dgrr/http2"
+	xh2 "golang.org/x/net/http2"
+)
+
+func frB01(b bool) string {
+	if b {
+		return "1"
+	}
+	return "0"
+}
+
+type frSettingsCanon struct {
+	ts, mcs, ws, fs, hs uint32
+	push                bool
+}
+
+func frDefaultSettingsCanon() frSettingsCanon {
+	return frSettingsCanon{ts: 4096, mcs: 100, ws: 65535, fs: 16384}
+}
+
+func (s frSettingsCanon) String(ack bool) string {
+	return fmt.Sprintf("SETTINGS ack=%s ts=%d push=%s mcs=%d ws=%d fs=%d hs=%d", frB01(ack), s.ts, frB01(s.push), s.mcs, s.ws, s.fs, s.hs)
+}
+
+// canonImpl prints a frame read (or built) by the code under test.
+func frCanonImpl(fr *http2.FrameHeader) string {
+	var s string
+	switch b := fr.Body().(type) {
+	case *http2.Data:
+		s = fmt.Sprintf("DATA es=%s data=%s", frB01(b.EndStream()), hexOrDash(b.Data()))
+	case *http2.Headers:
+		has, dep, w := http2.VerifHeadersPriority(b)
+		p := "-"
+		if has {
+			p = fmt.Sprintf("%d/%d", dep, w)
+		}
+		s = fmt.Sprintf("HEADERS es=%s eh=%s prio=%s frag=%s", frB01(b.EndStream()), frB01(b.EndHeaders()), p, hexOrDash(b.Headers()))
+	case *http2.Priority:
+		s = fmt.Sprintf("PRIORITY dep=%d w=%d", b.Stream(), b.Weight())
+	case *http2.RstStream:
+		s = fmt.Sprintf("RST_STREAM code=%d", uint32(b.Code()))
+	case *http2.Settings:
+		c := frSettingsCanon{ts: b.HeaderTableSize(), push: b.Push(), mcs: b.MaxConcurrentStreams(), ws: b.MaxWindowSize(), fs: b.MaxFrameSize(), hs: b.MaxHeaderListSize()}
+		s = c.String(b.IsAck())
+	case *http2.PushPromise:
+		st, ended, h := http2.VerifPushPromise(b)
+		s = fmt.Sprintf("PUSH_PROMISE promised=%d eh=%s frag=%s", st, frB01(ended), hexOrDash(h))
+	case *http2.Ping:
+		s = fmt.Sprintf("PING ack=%s data=%s", frB01(b.IsAck()), hexOrDash(b.Data()))
+	case *http2.GoAway:
+		s = fmt.Sprintf("GOAWAY last=%d code=%d debug=%s", b.Stream(), uint32(b.Code()), hexOrDash(b.Data()))
+	case *http2.WindowUpdate:
+		s = fmt.Sprintf("WINDOW_UPDATE inc=%d", b.Increment())
+	case *http2.Continuation:
+		s = fmt.Sprintf("CONTINUATION eh=%s frag=%s", frB01(b.EndHeaders()), hexOrDash(b.Headers()))
+	default:
+		s = "NOBODY"
+	}
+	return fmt.Sprintf("%s s=%d fl=%d len=%d", s, fr.Stream(), uint8(fr.Flags()), fr.Len())
+}
+
+// canonX prints x/net's reading of b in the same form.
+func frCanonX(max uint32, b []byte) string {
+	rd := bytes.NewReader(b)
+	var src io.Reader = rd
+	cont := len(b) >= 9 && b[3] == 9 && (b[5]&0x7f != 0 || b[6] != 0 || b[7] != 0 || b[8] != 0)
+	if cont {
+		// x/net's reader tracks the frame order: open a header block on that stream first
+		src = io.MultiReader(bytes.NewReader([]byte{0, 0, 0, 1, 0, b[5] & 0x7f, b[6], b[7], b[8]}), rd)
+	}
+	f := xh2.NewFramer(io.Discard, src)
+	if max == 0 || max > 1<<24-1 {
+		max = 1<<24 - 1
+	}
+	f.SetMaxReadFrameSize(max)
+	fr, err := f.ReadFrame()
+	if cont && err == nil {
+		fr, err = f.ReadFrame()
+	}
+	if err != nil {
+		var ce xh2.ConnectionError
+		var se xh2.StreamError
+		switch {
+		case errors.Is(err, xh2.ErrFrameTooLarge):
+			return "malformed code=6"
+		case errors.As(err, &ce):
+			return fmt.Sprintf("malformed code=%d", uint32(ce))
+		case errors.As(err, &se):
+			return fmt.Sprintf("malformed code=%d", uint32(se.Code))
+		}
+		if len(b) >= 9 {
+			l := int(b[0])<<16 | int(b[1])<<8 | int(b[2])
+			if len(b) >= 9+l {
+				return "malformed code=x"
+			}
+		}
+		return "incomplete"
+	}
+	h := fr.Header()
+	var s string
+	switch x := fr.(type) {
+	case *xh2.DataFrame:
+		s = fmt.Sprintf("DATA es=%s data=%s", frB01(x.StreamEnded()), hexOrDash(x.Data()))
+	case *xh2.HeadersFrame:
+		p := "-"
+		if x.HasPriority() {
+			p = fmt.Sprintf("%d/%d", x.Priority.StreamDep, x.Priority.Weight)
+		}
+		s = fmt.Sprintf("HEADERS es=%s eh=%s prio=%s frag=%s", frB01(x.StreamEnded()), frB01(x.HeadersEnded()), p, hexOrDash(x.HeaderBlockFragment()))
+	case *xh2.PriorityFrame:
+		s = fmt.Sprintf("PRIORITY dep=%d w=%d", x.StreamDep, x.Weight)
+	case *xh2.RSTStreamFrame:
+		s = fmt.Sprintf("RST_STREAM code=%d", uint32(x.ErrCode))
+	case *xh2.SettingsFrame:
+		c := frDefaultSettingsCanon()
+		for i := 0; i < x.NumSettings(); i++ {
+			st := x.Setting(i)
+			switch st.ID {
+			case 1:
+				c.ts = st.Val
+			case 2:
+				c.push = st.Val != 0
+			case 3:
+				c.mcs = st.Val
+			case 4:
+				c.ws = st.Val
+			case 5:
+				c.fs = st.Val
+			case 6:
+				c.hs = st.Val
+			}
+		}
+		s = c.String(x.IsAck())
+	case *xh2.PushPromiseFrame:
+		s = fmt.Sprintf("PUSH_PROMISE promised=%d eh=%s frag=%s", x.PromiseID, frB01(x.HeadersEnded()), hexOrDash(x.HeaderBlockFragment()))
+	case *xh2.PingFrame:
+		s = fmt.Sprintf("PING ack=%s data=%s", frB01(x.IsAck()), hexOrDash(x.Data[:]))
+	case *xh2.GoAwayFrame:
+		s = fmt.Sprintf("GOAWAY last=%d code=%d debug=%s", x.LastStreamID, uint32(x.ErrCode), hexOrDash(x.DebugData()))
+	case *xh2.WindowUpdateFrame:
+		s = fmt.Sprintf("WINDOW_UPDATE inc=%d", x.Increment)
+	case *xh2.ContinuationFrame:
+		s = fmt.Sprintf("CONTINUATION eh=%s frag=%s", frB01(x.HeadersEnded()), hexOrDash(x.HeaderBlockFragment()))
+	default:
+		return fmt.Sprintf("ignored t=%d len=%d rest=%d", uint8(h.Type), h.Length, rd.Len())
+	}
+	return fmt.Sprintf("frame %s s=%d fl=%d len=%d rest=%d", s, h.StreamID, uint8(h.Flags), h.Length, rd.Len())
+}
+
+func frParseMax(tok string) (max uint32, useFrom bool, ok bool) {
+	if !strings.HasPrefix(tok, "max=") {
+		return 0, false, false
+	}
+	v := tok[4:]
+	if v == "d" {
+		return 1 << 14, true, true
+	}
+	n, err := strconv.ParseUint(v, 10, 32)
+	if err != nil {
+		return 0, false, false
+	}
+	return uint32(n), false, true
+}
+
+func frErrKind(err error) string {
+	if err == http2.ErrPayloadExceeds {
+		return "too-large"
+	}
+	if code, goAway, ok := http2.VerifErrorInfo(err); ok {
+		if goAway {
+			return fmt.Sprintf("goaway:%d", uint32(code))
+		}
+		return fmt.Sprintf("stream:%d", uint32(code))
+	}
+	if errors.Is(err, io.EOF) || errors.Is(err, io.ErrUnexpectedEOF) || errors.Is(err, bufio.ErrBufferFull) {
+		return "io"
+	}
+	return "plain"
+}
+
+func frPoolString(extra []string) string {
+	an, _, acq, rel := http2.VerifPoolReport()
+	all := append([]string(nil), extra...)
+	for _, a := range an {
+		all = append(all, strings.ReplaceAll(a, " ", "-"))
+	}
+	s := "-"
+	if len(all) > 0 {
+		s = strings.Join(all, ",")
+	}
+	return fmt.Sprintf("pool=%d.%d.%d.%d anom=%s", acq["frameHeader"], acq["frame"], rel["frameHeader"], rel["frame"], s)
+}
+
+func frReadOne(max uint32, useFrom bool, b []byte) (fr *http2.FrameHeader, err error, consumed int) {
+	cr := bytes.NewReader(b)
+	br := bufio.NewReaderSize(cr, 4096)
+	if useFrom {
+		fr, err = http2.ReadFrameFrom(br)
+	} else {
+		fr, err = http2.ReadFrameFromWithSize(br, max)
+	}
+	return fr, err, len(b) - cr.Len() - br.Buffered()
+}
+
+func runFrameParse(f []string) (res string) {
+	max, useFrom, ok := frParseMax(f[1])
+	b, ok2 := unhex(f[2])
+	if !ok || !ok2 {
+		return "bad-op"
+	}
+	http2.VerifPoolTrack(true)
+	defer http2.VerifPoolTrack(false)
+	fr, err, consumed := frReadOne(max, useFrom, b)
+	var main string
+	switch {
+	case err == nil && fr != nil:
+		main = fmt.Sprintf("ok %s consumed=%d", frCanonImpl(fr), consumed)
+	case err == nil:
+		main = "nil-nil"
+	case errors.Is(err, http2.ErrUnknownFrameType):
+		main = fmt.Sprintf("unknown consumed=%d", consumed)
+	default:
+		main = fmt.Sprintf("err %s consumed=%d", frErrKind(err), consumed)
+	}
+	pool := frPoolString(nil)
+	if fr != nil {
+		// what every consumer does with a frame it was handed
+		an0, _, _, _ := http2.VerifPoolReport()
+		http2.ReleaseFrameHeader(fr)
+		an1, _, _, _ := http2.VerifPoolReport()
+		if len(an1) > len(an0) {
+			var late []string
+			for _, a := range an1[len(an0):] {
+				late = append(late, "late:"+strings.ReplaceAll(a, " ", "-"))
+			}
+			if strings.HasSuffix(pool, "anom=-") {
+				pool = strings.TrimSuffix(pool, "-") + strings.Join(late, ",")
+			} else {
+				pool += "," + strings.Join(late, ",")
+			}
+		}
+	}
+	xmax := max
+	return main + " " + pool + " :: xnet=" + frCanonX(xmax, b)
+}
+
+func runFrameReuse(f []string) string {
+	max, useFrom, ok := frParseMax(f[1])
+	b, ok2 := unhex(f[2])
+	if !ok || !ok2 {
+		return "bad-op"
+	}
+	http2.VerifPoolTrack(true)
+	defer http2.VerifPoolTrack(false)
+	fr, _, _ := frReadOne(max, useFrom, b)
+	if fr != nil {
+		http2.ReleaseFrameHeader(fr)
+	}
+	if len(b) < 9 || b[3] > 9 {
+		return "reuse=0"
+	}
+	t := http2.FrameType(b[3])
+	x := http2.AcquireFrame(t)
+	y := http2.AcquireFrame(t)
+	same := x == y
+	an, _, _, _ := http2.VerifPoolReport()
+	for _, a := range an {
+		if strings.HasPrefix(a, "two-owners") {
+			same = true
+		}
+	}
+	// hand back fresh objects so that the duplicate does not linger for later operations
+	http2.VerifPoolTrack(false)
+	if !same {
+		http2.ReleaseFrame(x)
+		http2.ReleaseFrame(y)
+	}
+	return "reuse=" + frB01(same)
+}
+
+func frKvGet(a []string, k string) (string, bool) {
+	for _, x := range a {
+		if strings.HasPrefix(x, k+"=") {
+			return x[len(k)+1:], true
+		}
+	}
+	return "", false
+}
+
+func frKvNat(a []string, k string) uint64 {
+	v, ok := frKvGet(a, k)
+	if !ok {
+		return 0
+	}
+	n, _ := strconv.ParseUint(v, 10, 64)
+	return n
+}
+
+func frKvHex(a []string, k string) []byte {
+	v, ok := frKvGet(a, k)
+	if !ok {
+		return nil
+	}
+	b, _ := unhex(v)
+	return b
+}
+
+// buildAndWrite builds the frame through the public setters and writes it.
+func frBuildAndWrite(t string, a []string, padded bool) ([]byte, bool) {
+	fr := http2.AcquireFrameHeader()
+	defer http2.ReleaseFrameHeader(fr)
+	fr.SetStream(uint32(frKvNat(a, "s")))
+	fr.SetFlags(http2.FrameFlags(uint8(frKvNat(a, "fl"))))
+	switch t {
+	case "DATA":
+		d := http2.AcquireFrame(http2.FrameData).(*http2.Data)
+		d.SetEndStream(frKvNat(a, "es") != 0)
+		d.SetData(frKvHex(a, "data"))
+		d.SetPadding(padded)
+		fr.SetBody(d)
+	case "HEADERS":
+		h := http2.AcquireFrame(http2.FrameHeaders).(*http2.Headers)
+		h.SetEndStream(frKvNat(a, "es") != 0)
+		h.SetEndHeaders(frKvNat(a, "eh") != 0)
+		h.SetHeaders(frKvHex(a, "frag"))
+		if frKvNat(a, "prio") != 0 {
+			http2.VerifSetHeadersPriority(h, true)
+			h.SetStream(uint32(frKvNat(a, "dep")))
+			h.SetWeight(uint8(frKvNat(a, "w")))
+		}
+		h.SetPadding(padded)
+		fr.SetBody(h)
+	case "PRIORITY":
+		p := http2.AcquireFrame(http2.FramePriority).(*http2.Priority)
+		p.SetStream(uint32(frKvNat(a, "dep")))
+		p.SetWeight(uint8(frKvNat(a, "w")))
+		fr.SetBody(p)
+	case "RST_STREAM":
+		r := http2.AcquireFrame(http2.FrameResetStream).(*http2.RstStream)
+		r.SetCode(http2.ErrorCode(frKvNat(a, "code")))
+		fr.SetBody(r)
+	case "SETTINGS":
+		st := http2.AcquireFrame(http2.FrameSettings).(*http2.Settings)
+		st.SetAck(frKvNat(a, "ack") != 0)
+		st.SetHeaderTableSize(uint32(frKvNat(a, "ts")))
+		st.SetPush(frKvNat(a, "push") != 0)
+		st.SetMaxConcurrentStreams(uint32(frKvNat(a, "mcs")))
+		st.SetMaxWindowSize(uint32(frKvNat(a, "ws")))
+		st.SetMaxFrameSize(uint32(frKvNat(a, "fs")))
+		st.SetMaxHeaderListSize(uint32(frKvNat(a, "hs")))
+		fr.SetBody(st)
+	case "PUSH_PROMISE":
+		pp := http2.AcquireFrame(http2.FramePushPromise).(*http2.PushPromise)
+		pp.SetHeader(frKvHex(a, "frag"))
+		fr.SetBody(pp)
+	case "PING":
+		p := http2.AcquireFrame(http2.FramePing).(*http2.Ping)
+		p.SetAck(frKvNat(a, "ack") != 0)
+		p.SetData(frKvHex(a, "data"))
+		fr.SetBody(p)
+	case "GOAWAY":
+		g := http2.AcquireFrame(http2.FrameGoAway).(*http2.GoAway)
+		g.SetStream(uint32(frKvNat(a, "last")))
+		g.SetCode(http2.ErrorCode(frKvNat(a, "code")))
+		g.SetData(frKvHex(a, "debug"))
+		fr.SetBody(g)
+	case "WINDOW_UPDATE":
+		wu := http2.AcquireFrame(http2.FrameWindowUpdate).(*http2.WindowUpdate)
+		wu.SetIncrement(int(frKvNat(a, "inc")))
+		fr.SetBody(wu)
+	case "CONTINUATION":
+		c := http2.AcquireFrame(http2.FrameContinuation).(*http2.Continuation)
+		c.SetEndHeaders(frKvNat(a, "eh") != 0)
+		c.SetHeader(frKvHex(a, "frag"))
+		fr.SetBody(c)
+	default:
+		return nil, false
+	}
+	var buf bytes.Buffer
+	bw := bufio.NewWriter(&buf)
+	if _, err := fr.WriteTo(bw); err != nil {
+		return nil, false
+	}
+	bw.Flush()
+	return buf.Bytes(), true
+}
+
+func runFrameWrite(f []string) string {
+	if len(f) < 2 {
+		return "bad-op"
+	}
+	t, a := f[1], f[2:]
+	pad := int(frKvNat(a, "pad"))
+	var out []byte
+	var ok bool
+	if pad == 0 || (t != "DATA" && t != "HEADERS") {
+		out, ok = frBuildAndWrite(t, a, false)
+	} else {
+		// AddPadding draws the pad length at random; rebuild until the requested one comes up
+		for try := 0; try < 200000; try++ {
+			out, ok = frBuildAndWrite(t, a, true)
+			if !ok || (len(out) > 9 && int(out[9]) == pad) {
+				break
+			}
+			ok = false
+		}
+		if !ok {
+			return "giveup"
+		}
+	}
+	if !ok {
+		return "bad-op"
+	}
+	return "ok " + hexOrDash(out) + " :: xnet=" + frCanonX(0, out)
+}
+
+func runFrame(f []string) string {
+	switch f[0] {
+	case "frame.parse":
+		if len(f) == 3 {
+			return runFrameParse(f)
+		}
+	case "frame.reuse":
+		if len(f) == 3 {
+			return runFrameReuse(f)
+		}
+	case "frame.spec":
+		if len(f) == 3 {
+			max, _, ok := frParseMax(f[1])
+			b, ok2 := unhex(f[2])
+			if ok && ok2 {
+				return frCanonX(max, b)
+			}
+		}
+	case "frame.write":
+		return runFrameWrite(f)
+	}
+	return "bad-op"
+}
